@@ -130,6 +130,14 @@ def _gen_periodic(rng, allow_zero=False):
         return -p * (1 - 2.0 ** -rng.randint(1, 53)), p, "negative_near_minus_period"
     if c == 8:
         return rng.choice([p, -p, math.nextafter(p, 0), -math.nextafter(p, 0), math.nextafter(p, INF), -math.nextafter(p, INF)]), p, "period_itself"
+    if c == 10:
+        # scale covariance: an ordinary (x, period) pair multiplied by the same power of two, over the whole exponent range
+        k = rng.randint(-1000, 990)
+        p0 = rng.uniform(0.05, 20.0)
+        x0 = rng.uniform(-10, 10) * p0
+        xs, ps = math.ldexp(x0, k), math.ldexp(p0, k)
+        if ps > 0 and math.isfinite(xs) and math.isfinite(ps):
+            return xs, ps, "scaled_by_power_of_two"
     return rng.uniform(-10, 10) * p, p, "ordinary"
 
 
@@ -161,6 +169,9 @@ def gen_xyz(rng):
     if k == 9:
         s = rng.choice([1e100, 1e-100, 1e150, 1e-150])
         return rng.uniform(-1, 1) * s, rng.uniform(-1, 1) * s, z, "large_or_small_in_range"
+    if k == 10:
+        e = rng.randint(-1040, 1000)
+        return math.ldexp(rng.uniform(-50, 50), e), math.ldexp(rng.uniform(-50, 50), e), z, "scaled_by_power_of_two"
     return rng.uniform(-50, 50), rng.uniform(-50, 50), z, "ordinary"
 
 
